@@ -39,7 +39,6 @@ ASSUMPTIONS = [
     "visual geometry (Meshed bodies) is not part of the alphabet",
 ]
 MIN_NONTRIVIAL = 100
-MIN_OUTCOMES = 2
 CASE_TIMEOUT = 120
 
 TYPES = ["fixed", "revolute", "continuous", "prismatic", "floating", "planar"]
@@ -411,7 +410,7 @@ def _selfcheck_twist(m, ref, bodies):
 def _norm_msg(e):
     import re
 
-    msg = re.sub(r"[0-9]+(\.[0-9]+)?(e[-+]?[0-9]+)?", "#", str(e))
+    msg = re.sub(r"(?<![A-Za-z_0-9])[0-9]+(\.[0-9]+)?(e[-+]?[0-9]+)?(?![A-Za-z_])", "#", str(e))
     msg = re.sub(r"/[^ '\"]*", "<path>", msg)
     return f"{type(e).__name__}: {msg[:110]}"
 
